@@ -131,7 +131,14 @@ func (v *version) Clone() *version {
 	clone.nonce = make([]byte, len(v.nonce))
 	copy(clone.nonce, v.nonce)
 
-	// not copying metadata
+	// the clone gets its own copy of the metadata: sharing the map would let a change made on the
+	// clone rewrite the (already stored) version it was cloned from
+	if v.metadata != nil {
+		clone.metadata = make(map[string]string, len(v.metadata))
+		for key, value := range v.metadata {
+			clone.metadata[key] = value
+		}
+	}
 
 	return &clone
 }
